@@ -31,7 +31,7 @@ class Contract:
         for k, v in kw.pop("loops", {}).items():
             self.loops[k] = {"inv": _labelled(v.get("inv", []), "inv"),
                              "modifies": v.get("modifies", []),
-                             "decreases": v.get("decreases")}
+                             "decreases": v.get("decreases"), "locals": v.get("locals", {})}
         self.decreases = kw.pop("decreases", None)
         self.cycle = kw.pop("cycle", None)
         self.inline = kw.pop("inline", False)
@@ -46,7 +46,7 @@ class Contract:
         self.src_text = None
 
     def loop(self, k):
-        return self.loops.get(k, {"inv": [], "modifies": [], "decreases": None})
+        return self.loops.get(k, {"inv": [], "modifies": [], "decreases": None, "locals": {}})
 
 
 def _labelled(items, prefix):
